@@ -18,17 +18,17 @@ import (
 )
 
 type Engine struct {
-	repo         string
-	module       string
-	fset         *token.FileSet
-	prog         *ssa.Program
-	pkgs         []*packages.Package
-	allPkgs      map[string]*packages.Package
-	contracts    *Contracts
-	funcsByKey   map[string]*ssa.Function
-	funcsByShort map[string]*ssa.Function
-	srcCache     map[string][]string
-	timeT        types.Type
+	repo          string
+	module        string
+	fset          *token.FileSet
+	prog          *ssa.Program
+	pkgs          []*packages.Package
+	allPkgs       map[string]*packages.Package
+	contracts     *Contracts
+	funcsByKey    map[string]*ssa.Function
+	funcsByShort  map[string]*ssa.Function
+	srcCache      map[string][]string
+	timeT         types.Type
 	contractFiles []string
 }
 
@@ -227,11 +227,13 @@ func (e *Engine) verifyUnit(fn *ssa.Function, classes map[string]bool) *UnitResu
 		u.nextEpoch = 0
 		u.notes = map[string]bool{}
 		u.heapSort = map[string]string{}
+		u.heapInfo = map[string]heapInfo{}
 		u.oblCount = map[string]int{}
 		u.sinks = nil
 		u.inlineStack = nil
 		u.failed = ""
 		u.insts = 0
+		u.allowedMods, u.allowedAll = nil, false
 		u.runRoot()
 		if u.failed != "" {
 			break
@@ -269,6 +271,7 @@ func (u *Unit) runRoot() {
 	u.allocEntry = a0
 	u.assumeGlobal(sx("<", "0", a0))
 	u.reg.axiom("(assert (forall ((s Str)) (! (>= (slen s) 0) :pattern ((slen s)))))")
+	u.sidx("(mkslice 0 0 0 0)", "0") // registers the symbol and its defining axiom
 	fr := u.newFrame(fn, nil)
 	fr.spec = u.spec
 	u.rootFrame = fr
@@ -316,12 +319,17 @@ func (u *Unit) runRoot() {
 			u.failed = err.Error()
 			return
 		}
+		if err := u.globalInvs(fr, st, u.spec, fn.Pkg.Pkg.Path(), false, token.NoPos, ""); err != nil {
+			u.failed = err.Error()
+			return
+		}
 	}
 	u.entry = st.clone()
 	fr.run(st)
 	if u.failed != "" || u.discovery {
 		return
 	}
+	canaryLen := len(u.body) // before the postcondition checks (a failed check is assumed afterwards)
 	// returns
 	var retPcs []string
 	for _, r := range fr.rets {
@@ -346,7 +354,14 @@ func (u *Unit) runRoot() {
 			}
 			u.check(fr, r.st, "post", clauseKey(cl), t, "postcondition: "+cl.Text, r.pos, cl.Props)
 		}
+		if u.spec.Flags["noalloc"] {
+			u.check(fr, r.st, "post", "noalloc", eq(u.hget(r.st, "$alloc", sInt), u.allocEntry), "flag noalloc: the function allocates nothing", r.pos, u.spec.Props)
+		}
 		if err := u.typeInvs(fr, r.st, u.entry, renv, true, r.pos); err != nil {
+			u.failed = err.Error()
+			return
+		}
+		if err := u.globalInvs(fr, r.st, u.spec, fn.Pkg.Pkg.Path(), true, r.pos, "global-inv"); err != nil {
 			u.failed = err.Error()
 			return
 		}
@@ -360,7 +375,7 @@ func (u *Unit) runRoot() {
 	// vacuity canary: some return must be reachable under the precondition
 	if len(retPcs) > 0 {
 		o := &Obligation{ID: u.eng.funcKeyShort(fn) + "/canary/return-reachable#0", Class: "canary", Func: u.eng.funcKey(fn), Desc: "precondition satisfiable and some return reachable (must be sat)",
-			bodyLen: len(u.body), goal: or(retPcs...), unit: u, Canary: true}
+			bodyLen: canaryLen, goal: or(retPcs...), unit: u, Canary: true}
 		u.obls = append(u.obls, o)
 	}
 }
@@ -427,22 +442,64 @@ func (u *Unit) typeInvs(fr *Frame, st, old *State, env map[string]Val, check boo
 }
 
 // frameCheck: every heap variable that changed is covered by the modifies clause (fresh objects aside).
-func (u *Unit) frameCheck(fr *Frame, st *State, env map[string]Val, pos token.Pos) {
-	mts, err := u.resolveModifies(u.spec, &specCtx{fr: fr, cur: u.entry, old: u.entry, env: env})
+// modAllowed resolves the root function's modifies clause once (in the entry state).
+func (u *Unit) modAllowed(fr *Frame) (map[string][]string, bool) {
+	if u.allowedMods != nil || u.allowedAll {
+		return u.allowedMods, !u.allowedAll
+	}
+	mts, err := u.resolveModifies(u.spec, &specCtx{fr: fr, cur: u.entry, old: u.entry, env: u.rootFrame.baseEnv()})
 	if err != nil {
 		u.failed = err.Error()
-		return
+		return nil, false
 	}
 	allowed := map[string][]string{}
 	for _, mt := range mts {
 		if mt.heap == "*" {
-			return
+			u.allowedAll = true
+			return nil, false
 		}
 		if mt.idx == "" {
 			allowed[mt.heap] = append(allowed[mt.heap], "*")
 		} else {
 			allowed[mt.heap] = append(allowed[mt.heap], mt.idx)
 		}
+	}
+	u.allowedMods = allowed
+	return allowed, true
+}
+
+// frameFormula: heap variable k in state st differs from the entry state only at locations the modifies clause names
+// (objects allocated by this activation aside). Returns "" when nothing needs to be shown.
+func (u *Unit) frameFormula(st *State, k string, allowed map[string][]string) string {
+	if isLocalName(k) || k == "$alloc" || k == "$lock" || k == "$now" {
+		return ""
+	}
+	srt := u.heapSort[k]
+	now, was := u.hget(st, k, srt), u.hget(u.entry, k, srt)
+	if now == was {
+		return ""
+	}
+	al := allowed[k]
+	for _, a := range al {
+		if a == "*" {
+			return ""
+		}
+	}
+	if strings.HasPrefix(srt, "(Array Int ") && !strings.HasPrefix(k, "$") && !strings.HasPrefix(k, "G_") {
+		var ex []string
+		for _, a := range al {
+			ex = append(ex, not(eq("r", a)))
+		}
+		return fmt.Sprintf("(forall ((r Int)) (=> %s (= (select %s r) (select %s r))))", and(append([]string{sx("<", "r", u.allocEntry)}, ex...)...), now, was)
+	}
+	return eq(now, was)
+}
+
+// frameCheck: every heap variable that changed is covered by the modifies clause (fresh objects aside).
+func (u *Unit) frameCheck(fr *Frame, st *State, env map[string]Val, pos token.Pos) {
+	allowed, ok := u.modAllowed(fr)
+	if !ok {
+		return
 	}
 	names := map[string]bool{}
 	for k := range st.heap {
@@ -458,39 +515,36 @@ func (u *Unit) frameCheck(fr *Frame, st *State, env map[string]Val, pos token.Po
 	}
 	var ks []string
 	for k := range names {
-		if isLocalName(k) || k == "$alloc" || k == "$lock" {
-			continue
-		}
 		ks = append(ks, k)
 	}
 	sort.Strings(ks)
-	a0 := u.allocEntry
 	for _, k := range ks {
-		srt := u.heapSort[k]
-		now, was := u.hget(st, k, srt), u.hget(u.entry, k, srt)
-		if now == was {
-			continue
+		if phi := u.frameFormula(st, k, allowed); phi != "" {
+			u.check(fr, st, "frame", k, phi, "only locations named in modifies change: "+k, pos, u.spec.Props)
 		}
-		al := allowed[k]
-		whole := false
-		for _, a := range al {
-			if a == "*" {
-				whole = true
-			}
-		}
-		if whole {
-			continue
-		}
-		var phi string
-		if strings.HasPrefix(srt, "(Array Int ") && !strings.HasPrefix(k, "$") && !strings.HasPrefix(k, "G_") {
-			var ex []string
-			for _, a := range al {
-				ex = append(ex, not(eq("r", a)))
-			}
-			phi = fmt.Sprintf("(forall ((r Int)) (=> %s (= (select %s r) (select %s r))))", and(append([]string{sx("<", "r", a0)}, ex...)...), now, was)
-		} else {
-			phi = eq(now, was)
-		}
-		u.check(fr, st, "frame", k, phi, "only locations named in modifies change: "+k, pos, u.spec.Props)
 	}
+}
+
+// globalInvs assumes or checks the package-level heap invariants a contract `uses`.
+func (u *Unit) globalInvs(fr *Frame, st *State, spec *FuncSpec, pkgPath string, check bool, pos token.Pos, class string) error {
+	for _, name := range spec.Uses {
+		cl := u.eng.contracts.Globals[pkgPath+"."+name]
+		if cl == nil {
+			return fmt.Errorf("%s: unknown global invariant %s", spec.Name, name)
+		}
+		t, err := u.specBool(cl.Expr, &specCtx{fr: fr, cur: st, old: st, env: map[string]Val{}, pkg: u.eng.typesPkg(pkgPath)})
+		if err != nil {
+			return fmt.Errorf("%s:%d: %v", cl.File, cl.Line, err)
+		}
+		if check {
+			props := cl.Props
+			if len(props) == 0 {
+				props = spec.Props
+			}
+			u.check(fr, st, class, name, t, "global heap invariant "+name+": "+cl.Text, pos, props)
+		} else {
+			u.assume(st, t)
+		}
+	}
+	return nil
 }
